@@ -602,10 +602,14 @@ def rule_rest(ctx: Ctx) -> None:  # noqa: C901, PLR0915
     for f_ in sc.funcs:
         collect_chains(f_.node.body, "")
     for a, b, why in (("nodes", "cpus", "`nodes` and `cpus` together"), ("cpus_per_node", "nodes", "`cpus_per_node` without `nodes`")):
-        hit = any(re.search(rf"\b\w+\.{a}\b(?!_)", t) and re.search(rf"\b\w+\.{b}\b(?!_)", t) for t in tests)
+        def names(q: str, t: str) -> bool:
+            """The test reads the field - as an attribute, or by its name as a string (`"nodes" in in_use`, `given.get("cpus")`)."""
+            return re.search(rf"\b\w+\.{q}\b(?!_)", t) is not None or re.search(rf"['\"]{q}['\"]", t) is not None
+
+        hit = any(names(a, t) and names(b, t) for t in tests)
         # the same relation tested anywhere in the closure (e.g. in a generator of violation messages whose first item is raised)
         anywhere = any(re.search(rf"\b\w+\.{a}\b(?!_)", norm(t_.test)) and re.search(rf"\b\w+\.{b}\b(?!_)", norm(t_.test)) for _f, t_ in sc.walk() if isinstance(t_, ast.If)) \
-            or any(re.search(rf"\b\w+\.{a}\b(?!_)", t) and re.search(rf"\b\w+\.{b}\b(?!_)", t) for t in chains)
+            or any(names(a, t) and names(b, t) for t in chains)
         ctx.tri("5-validated", post, post.node, hit, not hit and not anywhere, f"{why} is tested and rejected", f"no condition relates self.{a} and self.{b}: {why} is accepted",
                 f"{why} is tested, but not as the direct guard of a raise", key=f"exclusion {a}")
     for fname, what in (("_is_valid_wall_time", "wall-time"), ("_convert_to_gb", "memory")):
